@@ -38,6 +38,8 @@ class WA:
         g.wa_snap_how.argtypes = [ctypes.c_int]
         g.wa_snap_data.restype = ctypes.c_void_p
         g.wa_snap_data.argtypes = [ctypes.c_int]
+        g.wa_snap_addr.restype = ctypes.c_size_t
+        g.wa_snap_addr.argtypes = [ctypes.c_int]
         g.wa_live_size.restype = ctypes.c_size_t
         g.wa_live_size.argtypes = [ctypes.c_int]
         g.wa_live_data.restype = ctypes.c_void_p
@@ -63,16 +65,82 @@ class WA:
         snaps = []
         for i in range(g.wa_nsnaps()):
             n = g.wa_snap_size(i)
-            snaps.append((g.wa_snap_how(i), ctypes.string_at(g.wa_snap_data(i), n) if n else b""))
+            snaps.append((g.wa_snap_how(i), ctypes.string_at(g.wa_snap_data(i), n) if n else b"", g.wa_snap_addr(i)))
         # blocks the call obtained and did not release (how = 2): inspected like released ones
         leaked = []
         for i in range(g.wa_live()):
             n = g.wa_live_size(i)
-            leaked.append((2, ctypes.string_at(g.wa_live_data(i), n) if n else b""))
+            leaked.append((2, ctypes.string_at(g.wa_live_data(i), n) if n else b"", g.wa_live_data(i) or 0))
         info = {"nalloc": g.wa_nalloc(), "nfree": g.wa_nfree(), "failed": g.wa_failed(), "live": g.wa_live(),
                 "live_bytes": g.wa_live_bytes(), "overflow": g.wa_overflow(), "snaps": snaps, "leaked": leaked}
         g.wa_release_leaked()
         return ret, info
+
+
+def in_twins(funcs, timeout=60):
+    """run funcs[0]() and funcs[1]() in two processes that start from the *same* memory image: one child is forked, it
+    forks the second twin at once, and only then do the two pick their function.  (Forking the twins one after the other
+    from the parent would give them different heaps: the parent stores the first twin's results in between.)
+    Returns [(status, result), (status, result)] like in_child."""
+    pipes = [os.pipe(), os.pipe(), os.pipe()]          # results of twin 0, of twin 1, exit status of twin 1
+    pid = os.fork()
+    if pid == 0:
+        pid2 = os.fork()
+        idx = 1 if pid2 == 0 else 0
+        try:
+            for k, (r, w) in enumerate(pipes):
+                os.close(r)
+                if k != idx and not (idx == 0 and k == 2):
+                    os.close(w)
+            signal.alarm(timeout)
+            res = funcs[idx]()
+            data = pickle.dumps(res)
+            with os.fdopen(pipes[idx][1], "wb") as f:
+                f.write(struct.pack("<Q", len(data)))
+                f.write(data)
+            if idx == 0:
+                signal.alarm(timeout + 30)
+                _, st2 = os.waitpid(pid2, 0)
+                os.write(pipes[2][1], struct.pack("<i", st2))
+            os._exit(0)
+        except BaseException:
+            import traceback
+            try:
+                os.write(2, traceback.format_exc().encode())
+            except Exception:
+                pass
+            os._exit(97)
+    raws = []
+    for r, w in pipes:
+        os.close(w)
+    for r, w in pipes:
+        chunks = []
+        with os.fdopen(r, "rb") as f:
+            while True:
+                b = f.read(1 << 16)
+                if not b:
+                    break
+                chunks.append(b)
+        raws.append(b"".join(chunks))
+    _, status = os.waitpid(pid, 0)
+
+    def decode(status, raw):
+        if status is None:
+            return ("exit", "status-of-second-twin-unknown")
+        if os.WIFSIGNALED(status):
+            sig = os.WTERMSIG(status)
+            return ("timeout", None) if sig == signal.SIGALRM else ("signal", sig)
+        code = os.WEXITSTATUS(status)
+        if code != 0:
+            return ("exit", code)
+        if len(raw) < 8:
+            return ("exit", "no-result")
+        (n,) = struct.unpack("<Q", raw[:8])
+        return ("ok", pickle.loads(raw[8:8 + n]))
+    st2 = struct.unpack("<i", raws[2])[0] if len(raws[2]) == 4 else None
+    if st2 is None and len(raws[1]) >= 8:
+        st2 = 0                                        # twin 0 died before it could report, twin 1 delivered its result
+    return [decode(status, raws[0]), decode(st2, raws[1])]
 
 
 def in_child(func, timeout=60):
